@@ -9,6 +9,7 @@ import (
 	"os"
 	"runtime"
 	"strings"
+	"time"
 
 	"github.com/cloudflare/circl/oprf"
 	"github.com/cloudflare/pat-go/ecdsa"
@@ -50,7 +51,15 @@ func journalCase(fn string, in []byte) {
 	fmt.Fprintf(journal, "%s %d %s\n", fn, len(in), s)
 }
 
+// hung counts calls of a target that did not return: after two, its remaining inputs are skipped (each would cost the
+// full watchdog time) — the violation is on record with its input
+var hung = map[string]int{}
+
 func measure(c *h.Ctx, t target, cat_ string, in []byte) {
+	if hung[t.name] >= 2 {
+		c.Count(t.name+":skipped-after-hangs", 1, "")
+		return
+	}
 	if in != nil {
 		// an exact-capacity copy: a read past the end of the message must fault, not silently read the spare
 		// capacity of a longer buffer the message was cut from
@@ -60,7 +69,22 @@ func measure(c *h.Ctx, t target, cat_ string, in []byte) {
 	var ms0, ms1 runtime.MemStats
 	runtime.ReadMemStats(&ms0)
 	var ok bool
-	pan, msg := h.Protect(func() { ok = t.f(in) })
+	var pan bool
+	var msg string
+	done := make(chan struct{})
+	go func() {
+		defer close(done)
+		pan, msg = h.Protect(func() { ok = t.f(in) })
+	}()
+	select {
+	case <-done:
+	case <-time.After(20 * time.Second):
+		hung[t.name]++
+		// the call did not return: reported, the goroutine is abandoned (nothing it does later is looked at)
+		c.Count(t.name+":"+cat_, 1, t.name+"hang"+h.Hex(in[:minInt(len(in), 24)]))
+		c.Violation("a step that consumes peer bytes fails to terminate (no result after 20 s)", map[string]any{"function": t.name, "category": cat_, "input_len": len(in), "input": h.Hex(in[:minInt(len(in), 600)])})
+		return
+	}
 	runtime.ReadMemStats(&ms1)
 	alloc := ms1.TotalAlloc - ms0.TotalAlloc
 	verdict := h.StNone
@@ -191,6 +215,8 @@ func runC03(c *h.Ctx) {
 	inner32 := type3.VerifNewInner(is7.env.tokenKeyID[31], blinded0, []byte(name32)).Marshal() // padded origin without any zero byte
 	breq, _ := batched.BatchedClient{}.CreateTokenRequest([]tokens.TokenRequestWithDetails{st1.Request(), st2.Request(), st1.Request()})
 	bissuer := batched.NewBasicBatchedIssuer(wrap1{iss1}, wrap2{iss2})
+	bissuer1 := batched.NewBasicBatchedIssuer(wrap1{iss1})
+	bissuer2 := batched.NewBasicBatchedIssuer(wrap2{iss2})
 	bresp, _ := bissuer.EvaluateBatch(breq)
 	tokenKeyPSS, _ := util.MarshalTokenKeyPSSOID(&rsaKey(0).PublicKey)
 	tokenKeyLegacy, _ := util.MarshalTokenKeyRSAEncryptionOID(&rsaKey(0).PublicKey)
@@ -268,6 +294,30 @@ func runC03(c *h.Ctx) {
 				return false
 			}
 			_, e := bissuer.EvaluateBatch(r)
+			return e == nil
+		}},
+		{name: "batched.Request.Unmarshal+EvaluateBatch (issuer serving type 1 only)", seeds: [][]byte{breq.Marshal()}, f: func(in []byte) bool {
+			r := new(batched.BatchedTokenRequest)
+			if !r.Unmarshal(in) {
+				return false
+			}
+			_, e := bissuer1.EvaluateBatch(r)
+			return e == nil
+		}},
+		{name: "batched.Request.Unmarshal+EvaluateBatch (issuer serving type 2 only)", seeds: [][]byte{breq.Marshal()}, f: func(in []byte) bool {
+			r := new(batched.BatchedTokenRequest)
+			if !r.Unmarshal(in) {
+				return false
+			}
+			_, e := bissuer2.EvaluateBatch(r)
+			return e == nil
+		}},
+		{name: "batched.Request.Unmarshal+EvaluateBatch (issuer with no keys)", seeds: [][]byte{breq.Marshal()}, f: func(in []byte) bool {
+			r := new(batched.BatchedTokenRequest)
+			if !r.Unmarshal(in) {
+				return false
+			}
+			_, e := batched.NewBasicBatchedIssuer().EvaluateBatch(r)
 			return e == nil
 		}},
 		{name: "batched.UnmarshalBatchedTokenResponses", seeds: [][]byte{bresp}, f: func(in []byte) bool { _, e := batched.UnmarshalBatchedTokenResponses(in); return e == nil }},
@@ -422,6 +472,22 @@ func runC03(c *h.Ctx) {
 	reframe("type5.Request.Unmarshal+Evaluate", st5.Request().Marshal(), 3)
 	reframe("type5.FinalizeTokens", resp5, 0)
 	reframe("quicwire.ConsumeVarintBytes", quicwire.AppendVarintBytes(nil, rnd(c, 70)), 0)
+	// encapsulation keys with every registered (and the reserved / export-only 0xffff) KEM, KDF and AEAD identifier and a
+	// public key of the right length for the KEM
+	for kem, n := range map[uint16]int{0x0010: 65, 0x0011: 97, 0x0012: 133, 0x0020: 32, 0x0021: 56, 0x0000: 32, 0xffff: 32, 0x0013: 32} {
+		pk := rnd(c, n)
+		if n == 65 || n == 97 || n == 133 {
+			pk[0] = 4
+		}
+		if kem == 0x0020 {
+			pk = env.nameKey.Marshal()[3:35]
+		}
+		for _, kdf := range []uint16{0, 1, 2, 3, 4, 0xfffe, 0xffff} {
+			for _, aead := range []uint16{0, 1, 2, 3, 4, 0xfffe, 0xffff} {
+				extra["type3.UnmarshalEncapKey"] = append(extra["type3.UnmarshalEncapKey"], cat([]byte{7}, u16b(kem), pk, u16b(kdf), u16b(aead)))
+			}
+		}
+	}
 	// DER-consuming targets: every element of the seed's TLV tree emptied / shortened / extended with ALL enclosing
 	// lengths re-encoded consistently (structurally valid DER with degenerate leaves)
 	for _, t := range targets {
